@@ -36,6 +36,7 @@ inductive SOp where
   | feed (bs : List UInt8)
   | read (bs : List UInt8)
   | decode
+  | commit (n : Int)                      -- src.Commit(n) by the caller
   | encfeed (f : Frame) (opcode : Nat)    -- opcode as given to SetOpcode (0..255)
 
 def parseOp : List String → Option SOp
@@ -43,6 +44,7 @@ def parseOp : List String → Option SOp
   | ["feed", h] => (unhex h).map .feed
   | ["read", h] => (unhex h).map .read
   | ["decode"] => some .decode
+  | ["commit", n] => (int? n).map .commit
   | ["encfeed", fin, r1, r2, r3, op, m, mask, p] => do
       let op ← op.toNat?
       let masked ← bool? m
@@ -118,6 +120,7 @@ def sstep (st : SpecState) (op : SOp) (out : Out) (l : Lens) : Except String Spe
   match op, out with
   | .new max _, .out .ok => .ok { s := init max }
   | .feed bs, .out o => run (.feed bs) o fun s' => { st with s := s', fed := st.fed + bs.length }
+  | .commit _, .out o => run (.feed []) o fun s' => { st with s := s' }
   | .read bs, .out o => run (.read bs) o fun s' => { st with s := s', fed := st.fed + (match o with | .took n => n | _ => 0) }
   | .encfeed f _, .wire w =>
       match step st.s (.feed w) ⟨.ok, len, l.reserved⟩ with
@@ -177,7 +180,7 @@ def checkWith {σ : Type} (hook : Option (Hook σ)) (sc : Driver.Script) : Drive
           match sstep st op out (lens.getD ⟨0, 0, 0, 0⟩) with
           | .ok st' => s := some st'
           | .error d =>
-            res := { res with specFail := some (i, s!"{d}; op=[{match op with | .decode => "decode" | .feed _ => "feed" | .read _ => "read" | .new _ _ => "new" | .encfeed _ _ => "encfeed"}] obs=[{showOut out}] pending={hex (st.s.pending.take 16)}({st.s.pending.length}) max={st.s.max}") }
+            res := { res with specFail := some (i, s!"{d}; op=[{match op with | .decode => "decode" | .feed _ => "feed" | .read _ => "read" | .new _ _ => "new" | .encfeed _ _ => "encfeed" | .commit _ => "commit"}] obs=[{showOut out}] pending={hex (st.s.pending.take 16)}({st.s.pending.length}) max={st.s.max}") }
             s := none
       | _, none => res := { res with envBad := res.envBad <|> some (i, s!"unparsable result line: {ln.raw.take 80}") }
       | none, _ => pure ()
